@@ -54,6 +54,12 @@ let judge _name ins outs =
   let vtoks = List.filter (fun t -> not (is_flag t)) rest in
   if List.mem "ENVFAIL" trtoks || List.mem "ENVFAIL" flags then VDisagree "environment-failure(listen/dial)"
   else if List.mem "PANIC" flags then VPropfail ("no_panic", "harness recovered a panic")
+  else if List.exists (fun f -> String.length f > 6 && String.sub f 0 6 = "PANIC:") flags then
+    VPropfail ("no_panic", "the proxy panicked while Close raced accepts: " ^ String.concat " " flags)
+  else if List.mem "RACE" flags then VPropfail ("no_data_race", "race detector report in the Close/accept stress child")
+  else if List.exists (fun f -> String.length f > 10 && String.sub f 0 10 = "CHILDFAIL:") flags then
+    VDisagree ("stress-child-failed:" ^ String.concat "," flags)
+  else if List.mem "NOPANIC" flags then VOk true
   else if List.mem "DEADLOCK" flags then VPropfail ("close_returns", "Close did not return within 8s after every parked exchange was released: " ^ String.concat "_" trtoks)
   else if List.mem "UNACCEPTED_SERVED" flags then VPropfail ("late_accept_not_served", "a client whose connection was never accepted received a response")
   else if List.exists (fun f -> f = "WARMUPFAIL" || f = "NOPARK" || f = "BADCASE") flags then
